@@ -57,17 +57,24 @@ def model_sources_digest(api_module='ApiCore', kind='fast'):
     if os.path.exists(p): h.update(open(p, 'rb').read())
     return h.hexdigest()
 
-def coq_make(targets=(), timeout=3000):
-    """(re)build .vo files of the development (full build, never -vos)"""
-    with Lock('coq'):
-        files = []
-        for d in ('Spec', 'Model', 'Extract', 'Kernel', 'Proofs', 'Gen', '.'):
-            p = os.path.join(COQ, d)
-            if os.path.isdir(p):
-                files += sorted(os.path.join(d, f) if d != '.' else f for f in os.listdir(p) if f.endswith('.v'))
-        rc, o = sh('coq_makefile -f _CoqProject %s -o Makefile' % ' '.join(files), cwd=COQ)
+def coq_make(targets=(), timeout=1500):
+    """(re)build .vo files of the development (full build, never -vos).
+       Concurrent invocations are allowed (each uses its own generated Makefile); callers work on
+       disjoint files, shared base files change rarely."""
+    files = []
+    for d in ('Spec', 'Model', 'Extract', 'Kernel', 'Proofs', 'Gen', '.'):
+        p = os.path.join(COQ, d)
+        if os.path.isdir(p):
+            files += sorted(os.path.join(d, f) if d != '.' else f for f in os.listdir(p) if f.endswith('.v'))
+    mk = 'Makefile.%d' % os.getpid()
+    try:
+        rc, o = sh('coq_makefile -f _CoqProject %s -o %s' % (' '.join(files), mk), cwd=COQ)
         if rc != 0: return rc, o
-        return sh('timeout %d make -k -j%d %s' % (timeout, NPROC, ' '.join(targets)), cwd=COQ, timeout=timeout + 60)
+        return sh('timeout %d make -f %s -k -j%d %s' % (timeout, mk, NPROC, ' '.join(targets)), cwd=COQ, timeout=timeout + 60)
+    finally:
+        for f in (mk, mk + '.conf', '.' + mk + '.d'):
+            try: os.remove(os.path.join(COQ, f))
+            except OSError: pass
 
 def ensure_model(group, api_module=None, dispatch=None, slow=False):
     """extract the dispatcher of a model group and link it with the generic driver.
